@@ -62,6 +62,7 @@ type worker struct {
 	blocks   int
 	wakeAt   time.Time // wIdle: not before this instant of the bubble clock
 	within   time.Duration // wQuiesce: quiet period required
+	unlocked bool          // released a lock since its last yield (targeted strategy)
 }
 
 // Violation is the record of a failed oracle.
@@ -687,6 +688,7 @@ func (s *Sim) controller() {
 			s.trace = append(s.trace, strconv.FormatUint(s.seq, 10)+" "+w.id+" "+w.site+" c="+strconv.Itoa(idx)+"/"+strconv.Itoa(len(ebuf))+" t="+s.vnowLocked().Sub(s.start).String())
 		}
 		w.state = stRunning
+		w.unlocked = false
 		iunlock(&s.mu)
 		w.resume <- struct{}{}
 	}
